@@ -48,45 +48,16 @@ Definition is_boundary (p : op) : bool :=
 (* ------------------------------------------------------------------ the guard *)
 Definition on_stack (n : nat) (st : sess) : bool := existsb (fun f => Nat.eqb (fid f) n) (stack st).
 
-(* objects whose key switch is recorded in the frame *)
-Definition ks_dom (f : frame) : list nat := map fst (fks f).
-(* objects of the identity map with an unflushed primary key change *)
-Definition pending_switch (st : sess) : list nat :=
-  filter (fun o => oin (objs st o) && upd_sets_id (objs st o)) (all_objs st).
-Fixpoint disjoint_all (ls : list (list nat)) : bool :=
-  match ls with
-  | [] => true
-  | l :: r => forallb (fun x => negb (existsb (mem x) r)) l && disjoint_all r
-  end.
-(* the frames a handle.commit() of frame [n] merges: from the innermost one down to the parent of [n] *)
-Fixpoint frames_upto_parent (n : nat) (fs : list frame) : list frame :=
-  match fs with
-  | [] => []
-  | f :: r => if Nat.eqb (fid f) n then f :: firstn 1 r else f :: frames_upto_parent n r
-  end.
-Definition g2_ok (st : sess) (n : nat) : bool :=
-  match frames_upto_parent n (stack st) with
-  | [] => true
-  | f :: r => disjoint_all ((ks_dom f ++ pending_switch st) :: map ks_dom r)
-  end.
-
-(* the same condition for Session.commit(), which releases every open savepoint *)
-Definition g2_all (st : sess) : bool :=
-  match stack st with
-  | [] => true
-  | f :: r => disjoint_all ((ks_dom f ++ pending_switch st) :: map ks_dom r)
-  end.
-
 (* [guard st p]: operation [p] in state [st] stays outside the defective regions:
    g1  handle.rollback() of a savepoint that is not the innermost open one (the inner ones are closed
        without _restore_snapshot);
-   g2  handle.commit() merging a key switch into a scope that already recorded one for the same object
-       (dict.update loses the original key); the same condition is imposed on Session.commit() with open
-       savepoints (there the lost key is never used again - the outermost commit drops all snapshots -
-       but the invariant of the proof does not hold in between: a limit of the proof, not a defect);
-   g3  add() of an object that _restore_snapshot sent back to transient while its _deleted flag stayed set;
    g5  delete() of an object that is already in the deleted state (it is put back into the identity map);
-   g6  close() while an object is in the deleted state (expunge_all does not detach it).
+   g6  close() while an object is in the deleted state and no open transaction refers to it (with
+       expire_on_commit=False an object stays in the deleted state, attached, after its DELETE was
+       committed; expunge_all cannot find it).
+   (Former clauses g2 - key switches of one object in a savepoint and an enclosing scope - and g3 - add()
+   of an object whose _deleted flag survived an expunge - are gone: the implementation was repaired,
+   commits f8f802f and 0c90c34, and the theorem is proved without them; g6 shrank with 9732dc8.)
    Not a defect, a limit of what is proved: after a failed flush (innermost transaction DEACTIVE) the
    object operations new/add/assign/delete are outside the guard until the transaction is rolled back
    (the implementation discards such changes with a warning; covered by the correspondence only). *)
@@ -102,15 +73,9 @@ Definition guard (st : sess) (p : op) : bool :=
       | Some (Some n) => head_is n st || negb (on_stack n st)
       | _ => true
       end
-  | OTCommit h =>
-      match nth_error (handles st) h with
-      | Some (Some n) => g2_ok st n
-      | _ => true
-      end
-  | OCommit => g2_all st
-  | OAdd o => negb (match okey (objs st o) with None => odelf (objs st o) | Some _ => false end)
   | ODel o => negb (odelf (objs st o))
-  | OClose => negb (existsb (fun o => is_deleted_state (objs st o)) (all_objs st))
+  | OClose => negb (existsb (fun o => is_deleted_state (objs st o) &&
+                                      negb (existsb (fun f => mem o (fdel f)) (stack st))) (all_objs st))
   | _ => true
   end.
 
